@@ -47,6 +47,7 @@ def udpOp (u : USt) (op : String) : Option USt :=
   -- a listener with receive_broadcasts: another receive path in the adapter, the same contract
   | "B" => if rest = "" then some { u with w := step u.w .openListener } else none
   | "R" => if rest = "" then some { u with w := step u.w .openRaw } else none
+  | "Q" => if rest = "" then some { u with w := step u.w .openRaw } else none   -- a raw peer on 127.0.0.2
   | "C" | "c" =>   -- `c`: the harness does not poll before the next `w`
     match rest.toNat? with
     | some j => if j < u.w.socks.length then some { u with w := step u.w (.openConnected j) } else none
